@@ -4,5 +4,13 @@ CHECKS = {
   technique='property-based round-trip testing (Hypothesis) + exhaustive enumeration of 2-cut chunkings and truncation points',
   text='Generated item lists are framed by the real frame(), re-chunked arbitrarily (empty chunks, cuts inside prefixes/payloads/lines, truncations) and unframed; the result must equal the items (complete frames only for truncated length-prefixed streams; unterminated last line delivered at completion). Exploration, not proof: holds on every generated case plus all 2-cut chunkings / all truncation points of the small generated streams.',
   note='Trusts rx.from_ for synchronous in-order delivery; items obey the documented size limit of the prefix; absence of violations is only shown for the explored cases.'),
+ 'C01': dict(
+  technique='differential property-based testing (Hypothesis): keyed run vs per-group plain run of generated pipelines',
+  text='For generated type-correct pipelines over the whole dual-mode catalogue (incl. nested tee_map, all joins) and generated keyed inputs/interleavings, every group\'s output under group_by+with_memory_store, under raw mux events with sparse key indices and under multiplex() must equal, item by item, the output of the same pipeline on that group alone as a plain observable; a failing assert_ must fail the keyed stream with the same exception type. Exploration over ~8k (quick) / ~700k (thorough) cases.',
+  note='Both sides are the real code (no model in the comparison); the reference model is only used to reject cases where first/last/mean(reduce) would see an empty sequence. User functions come from finite pure families; streaming scans use non-mutating accumulators (aliasing of re-emitted mutable state is outside the property).'),
+ 'C11': dict(
+  technique='model-based property testing with a stepped (Subject-driven) source and a timed reference model',
+  text='Every output of generated pipelines (nested windows, groups, tees; plain dual-mode pipelines with early completion) is stamped with the source push during which it was emitted; per push the multiset of outputs must equal that of the reference model, so nothing is early and nothing is late. Exploration.',
+  note='Trusts the reference model (vf/model.py, cross-validated against the code on >10^4 pipelines) and that rxsci is synchronous; order within one push is not judged here.'),
 }
 NOT_APPLICABLE = {}
